@@ -62,6 +62,11 @@ func (Engine) Describe(prop string) core.Description {
 		d.Probes = []string{"range-on-softcollection", "range-on-resources-of-wrappers", "range-on-wrappercollection", "sort-by-uint64", "sort-by-bytes", "sort-nil-present", "sort-ties-without-id", "filter-bytes-order", "filter-nil-operand", "filter-unknown-op", "filter-and-or", "page-beyond-end", "size-zero", "ids-subset", "pages-partition-checked", "permuted-order-checked", "earlier-page-reread", "range-over-earlier-page", "huge-page-size"}
 	}
 
+	if prop == "C09" {
+		d.Rule += "; one filter object serves all the calls of a query and is then re-targeted (in-lists replaced by others of the same length) and used again; a third of the wrappers of a twin collection are added blank and get ID and values afterwards"
+		d.Probes = append(d.Probes, "filter-object-retargeted-and-reused")
+	}
+
 	return d
 }
 
